@@ -2388,6 +2388,25 @@ class Interp:
         v = nt_field(obj, name)
         if v is not None:
             return v
+        if name in ("shape", "cond_shape") and obj[0] == "call" and obj[1][0] == "ext" and obj[1][1].startswith("flowjax.") \
+                and obj[1][1] not in NT_CLASSES and self.inline_repo and self.inline_depth < MAX_INLINE:
+            # the declared shape of a freshly constructed library object: what its constructor stores
+            r_ = self.prog.lookup(obj[1][1])
+            qn_ = f"{obj[1][1]}.__init__#field"
+            if r_ and r_[0] == "class" and self.stack.count(qn_) == 0:
+                self.stack.append(qn_)
+                try:
+                    sub_ = Interp(self.prog, no_inline=self.no_inline)
+                    flds_ = sub_.eval_init(r_[1], list(obj[2]), dict(obj[3]))
+                    v_ = flds_.get(name)
+                    if v_ is not None:
+                        v_ = sub_.as_term(v_)
+                        if not has_unknown(v_):
+                            return v_
+                except AnalysisError:
+                    pass
+                finally:
+                    self.stack.pop()
         if obj[0] == "call" and obj[1][0] == "ext" and obj[1][1] in NT_CLASSES:
             # a property / method of a repository NamedTuple, read off a constructor call: evaluated with self = the record
             r_ = self.prog.lookup(obj[1][1])
@@ -2752,6 +2771,28 @@ class Interp:
                     finally:
                         self.depth -= 1
                     return ("map", ("lam", 1, body_, d_), dom_)
+            if q == "equinox.combine" and len(args) == 2 and not kwargs:
+                # combine(tree_map(f, partition(T, p)[0]), partition(T, p)[1])  ==  tree_map(l -> f(l) if p(l) else l, T):
+                # the selected leaves are mapped, the others are put back unchanged
+                a0_, a1_ = self.as_term(args[0]), self.as_term(args[1])
+                if a0_[0] == "call" and a0_[1] == ("ext", "jax.tree_util.tree_map") and a1_[0] == "sub" and a1_[2] == C(1):
+                    kw_ = dict(a0_[3])
+                    f_, t_ = kw_.get("f"), kw_.get("tree")
+                    part_ = a1_[1]
+                    if f_ is not None and t_ is not None and t_ == ("sub", part_, C(0)) and part_[0] == "call" and \
+                            part_[1] == ("ext", "equinox.partition") and f_[0] == "lam" and f_[1] == 1 and set(kw_) <= {"f", "tree"}:
+                        pk_ = dict(part_[3])
+                        tree_ = pk_.get("pytree") if "pytree" in pk_ else (part_[2][0] if part_[2] else None)
+                        pred_ = pk_.get("filter_spec") if "filter_spec" in pk_ else (part_[2][1] if len(part_[2]) > 1 else None)
+                        if tree_ is not None and pred_ is not None and pred_[0] == "lam" and pred_[1] == 1 and "is_leaf" not in pk_:
+                            d_ = self.depth
+                            l_ = ("bv", d_, 0)
+                            self.depth += 1
+                            try:
+                                body_ = mk_ite(self.beta(pred_, [l_]), self.beta(f_, [l_]), l_)
+                            finally:
+                                self.depth -= 1
+                            return self.call(("ext", "jax.tree_util.tree_map"), [("lam", 1, body_, d_), tree_], {}, ctx)
             if q == "jax.tree_util.tree_unflatten" and len(args) + len(kwargs) == 2:
                 # tree_unflatten(treedef, [f(l) for l in leaves]) with (leaves, treedef) = tree_flatten(tree, is_leaf=p)
                 # is tree_map(f, tree, is_leaf=p) - the definition of tree_map
